@@ -130,7 +130,7 @@ package tokenizers
 //@ interface ITokenizer.TokenizeBuffer(self, buffer)
 //@   requires self != nil
 //@   ensures[C03] fresh(result) && (forall i int :: 0 <= i && i < len(result) ==> result[i] != nil && allocated(result[i]))
-//@   assigns any(AbstractTokenizer).Scanner, any(AbstractTokenizer).NextTokenValue, any(AbstractTokenizer).LastTokenType, any(tokenizers.MustacheTokenizer).special, any(tokenizers.MustacheTokenizer).lastReader, any(tokenizers.MustacheTokenizer).tagStart, any(tokenizers.MustacheTokenizer).comment
+//@   assigns any(AbstractTokenizer).Scanner, any(AbstractTokenizer).ReaderVersion, any(AbstractTokenizer).NextTokenValue, any(AbstractTokenizer).LastTokenType, any(tokenizers.MustacheTokenizer).special, any(tokenizers.MustacheTokenizer).lastVersion, any(tokenizers.MustacheTokenizer).tagStart, any(tokenizers.MustacheTokenizer).comment
 //@   nopanic
 
 // ---- the tokenizer loop (C03: tokenizing terminates and returns normally) ------------------------------------------
@@ -151,7 +151,7 @@ package tokenizers
 //@   ensures[C03] result != nil && result.typ == Eof ==> old(absOf(self).LastTokenType) != Eof && absOf(self).LastTokenType == Eof
 //@   ensures[C03] result == nil && absOf(self).Scanner != nil ==> absOf(self).LastTokenType == Eof
 //@   assigns absOf(self).LastTokenType, sc(absOf(self).Scanner).position, sc(absOf(self).Scanner).line, sc(absOf(self).Scanner).column,
-//@       any(tokenizers.MustacheTokenizer).special, any(tokenizers.MustacheTokenizer).lastReader, any(tokenizers.MustacheTokenizer).tagStart, any(tokenizers.MustacheTokenizer).comment
+//@       any(tokenizers.MustacheTokenizer).special, any(tokenizers.MustacheTokenizer).lastVersion, any(tokenizers.MustacheTokenizer).tagStart, any(tokenizers.MustacheTokenizer).comment
 //@   nopanic
 //
 //@ func (c *AbstractTokenizer) NextToken
@@ -163,7 +163,7 @@ package tokenizers
 //@   ensures[C03] old(c.NextTokenValue) == nil && result != nil && result.typ == Eof ==> old(c.LastTokenType) != Eof && c.LastTokenType == Eof
 //@   ensures[C03,C05] old(c.NextTokenValue) != nil ==> result == old(c.NextTokenValue) && c.LastTokenType == old(c.LastTokenType)
 //@   ensures[C03] old(c.NextTokenValue) == nil && result == nil && c.Scanner != nil ==> c.LastTokenType == Eof
-//@   assigns c.NextTokenValue, c.LastTokenType, sc(c.Scanner).position, sc(c.Scanner).line, sc(c.Scanner).column, any(tokenizers.MustacheTokenizer).special, any(tokenizers.MustacheTokenizer).lastReader, any(tokenizers.MustacheTokenizer).tagStart, any(tokenizers.MustacheTokenizer).comment
+//@   assigns c.NextTokenValue, c.LastTokenType, sc(c.Scanner).position, sc(c.Scanner).line, sc(c.Scanner).column, any(tokenizers.MustacheTokenizer).special, any(tokenizers.MustacheTokenizer).lastVersion, any(tokenizers.MustacheTokenizer).tagStart, any(tokenizers.MustacheTokenizer).comment
 //@   nopanic
 //
 // "tokenizing with any built-in tokenizer terminate[s] and return[s] normally": measure = characters left, then whether
@@ -174,7 +174,7 @@ package tokenizers
 //@       (forall i int :: 0 <= i && i < len(sc(scanner).content) ==> scalar(sc(scanner).content[i]))
 //@   ensures[C03] forall i int :: 0 <= i && i < len(result) ==> result[i] != nil && allocated(result[i])
 //@   ensures[C03] fresh(result)
-//@   assigns c.Scanner, c.NextTokenValue, c.LastTokenType, sc(scanner).position, sc(scanner).line, sc(scanner).column, any(tokenizers.MustacheTokenizer).special, any(tokenizers.MustacheTokenizer).lastReader, any(tokenizers.MustacheTokenizer).tagStart, any(tokenizers.MustacheTokenizer).comment
+//@   assigns c.Scanner, c.ReaderVersion, c.NextTokenValue, c.LastTokenType, sc(scanner).position, sc(scanner).line, sc(scanner).column, any(tokenizers.MustacheTokenizer).special, any(tokenizers.MustacheTokenizer).lastVersion, any(tokenizers.MustacheTokenizer).tagStart, any(tokenizers.MustacheTokenizer).comment
 //@   nopanic
 //@   loop 0
 //@     invariant ovOK(c) && tokInv(c) && c.Scanner == scanner && c.NextTokenValue == nil && sc(scanner).content == old(sc(scanner).content)
@@ -193,7 +193,9 @@ package tokenizers
 //@ func (c *AbstractTokenizer) SetReader
 //@   requires c != nil
 //@   ensures[C05] c.Scanner == value && c.NextTokenValue == nil && c.LastTokenType == Unknown
-//@   assigns c.Scanner, c.NextTokenValue, c.LastTokenType
+// every reader set is a new input, also the same scanner set again: the version a mode-keeping tokenizer compares changes
+//@   ensures[C05] c.ReaderVersion != old(c.ReaderVersion)
+//@   assigns c.Scanner, c.NextTokenValue, c.LastTokenType, c.ReaderVersion
 //@   nopanic
 // "nor on how often the presence of a next token was queried before fetching it": the first query reads one token and
 // keeps it; further queries change nothing; NextToken hands out the kept token
@@ -203,5 +205,5 @@ package tokenizers
 //@   ensures[C05] old(c.NextTokenValue) != nil ==> c.NextTokenValue == old(c.NextTokenValue) && c.LastTokenType == old(c.LastTokenType) &&
 //@       (c.Scanner != nil ==> sc(c.Scanner).position == old(sc(c.Scanner).position))
 //@   ensures[C05] c.NextTokenValue != nil ==> allocated(c.NextTokenValue)
-//@   assigns c.NextTokenValue, c.LastTokenType, sc(c.Scanner).position, sc(c.Scanner).line, sc(c.Scanner).column, any(tokenizers.MustacheTokenizer).special, any(tokenizers.MustacheTokenizer).lastReader, any(tokenizers.MustacheTokenizer).tagStart, any(tokenizers.MustacheTokenizer).comment
+//@   assigns c.NextTokenValue, c.LastTokenType, sc(c.Scanner).position, sc(c.Scanner).line, sc(c.Scanner).column, any(tokenizers.MustacheTokenizer).special, any(tokenizers.MustacheTokenizer).lastVersion, any(tokenizers.MustacheTokenizer).tagStart, any(tokenizers.MustacheTokenizer).comment
 //@   nopanic
